@@ -184,6 +184,26 @@ CHECKS = {
             'The curvature method is a documented first-order expansion (value compared near the solvus only); binary non-isothermal states '
             'use the interval Rcrit(T +- maxTempChange) as the lookup contract allows.',
             '2/C12'),
+    'C13': ('model_checking',
+            'per-step trajectory monitoring of full schedule x specification-route products; exact inversion of the lookup-table temperature on the analytic backend',
+            'schedule: constant / (hours, K) break points / functions x system x phases x iterator x solve calls, each through six ways of '
+            'specifying it (setter, constructor object, mutated object and combinations): recorded temperature equals the schedule bit for bit, '
+            'the isothermal flag agrees, histories identical to the setter route. lookup: binary ramps +-{0.1, 5, 100, 3000} K/h, holds, saw-tooth '
+            'x maxTempChange {1,5} x maxNonIsothermalDT x iterator: at every step the temperature at which the planar and every per-class '
+            'interfacial composition in use was computed (recovered exactly, T = x_e^-1) lies within maxTempChange of the current temperature; '
+            'Al-Zr conformance against an independently tabulated solvus; SinglePhase/Homogenization models: every temperature reaching the '
+            'environment equals the schedule (constant, array, field T(z,t)).',
+            'Analytic binary backend for the exact inversion; two-phase RK4 excluded from the lookup product (horizon), present in the schedule stage.',
+            '2/C13'),
+    'C19': ('model_checking',
+            'per-step trajectory monitoring of condition x inequality x threshold-class x selection x combination-mode products against an independent scan of the history',
+            'For every monitored quantity (volume fraction, radius, driving force, nucleation rate, density, composition) x both inequalities x '
+            'thresholds met at start / early / late / never x phase or element selection x or/and, and for pairs/triples in mixed modes: the run '
+            'has exactly the number of steps an independent scan of the free run\'s history predicts (or reaches the end time), the stopped run '
+            'is a bit-identical prefix of the free run, conditions latch (checked at every accepted step), the reported time equals the linear '
+            'interpolation and lies inside the crossing step, reset clears latches; the TTP calculator over 3 temperatures equals 3 independent runs.',
+            'Analytic backends; thresholds are derived from a free run of each configuration.',
+            '2/C19'),
 }
 
 NOT_YET = {}
